@@ -23,6 +23,10 @@ class NotSymbolic(Exception):
     pass
 
 
+class SymbolicBranch(NotSymbolic):
+    """The program asked for the truth value of a symbol: the path taken depends on the data."""
+
+
 class Sym:
     """A polynomial with rational coefficients over named atoms (commutative)."""
 
@@ -127,6 +131,11 @@ class Sym:
     def __hash__(self):
         return hash(tuple(sorted(self.terms.items())))
 
+    def __bool__(self):
+        if all(m == () for m in self.terms):
+            return bool(self.terms.get((), 0))
+        raise SymbolicBranch(f"truth value of the symbolic quantity `{self!r}`")
+
     def __repr__(self):
         if not self.terms:
             return "0"
@@ -183,7 +192,12 @@ _NP_FUNCS = {
     "stack": lambda seq, axis=0: np.stack([_arr(x) for x in seq], axis=axis),
     "hstack": lambda seq: np.hstack([x if isinstance(x, np.ndarray) else _arr(x) for x in seq]),
     "vstack": lambda seq: np.vstack([x if isinstance(x, np.ndarray) else _arr(x) for x in seq]),
-    "diag": lambda a: np.diag(_arr(a)),
+    "diag": lambda a, k=0: np.diag(_arr(a), k),
+    "diagonal": lambda a, offset=0, **k: np.diagonal(_arr(a), offset, **k).copy(),
+    "trace": lambda a, offset=0: np.trace(_arr(a), offset),
+    "round": lambda a, decimals=0: _round(a, decimals),
+    "around": lambda a, decimals=0: _round(a, decimals),
+    "rint": lambda a: _round(a, 0),
     "swapaxes": lambda a, i, j: np.swapaxes(_arr(a), i, j),
     "cross": lambda a, b: _cross(_arr(a), _arr(b)),
     "zeros_like": lambda a, **k: np.zeros(_arr(a).shape),
@@ -208,6 +222,10 @@ _METHODS = {
     "swapaxes": lambda a, i, j: a.swapaxes(i, j),
     "dot": lambda a, b: np.dot(a, _arr(b)),
     "tolist": lambda a: a.tolist(),
+    "diagonal": lambda a, offset=0, **k: a.diagonal(offset, **k).copy(),
+    "trace": lambda a, offset=0: a.trace(offset),
+    "prod": lambda a, axis=None: a.prod(axis=axis),
+    "round": lambda a, decimals=0: _round(a, decimals),
 }
 
 
@@ -233,6 +251,17 @@ def _opaque1(fname, x):
     name = f"{fname}({x!r})"
     OPAQUE_ARGS[name] = (fname, x)
     return Sym.atom(name)
+
+
+def _round(a, decimals=0):
+    """Rounding: exact on numbers, an uninterpreted application on symbols (equal only to itself)."""
+    if isinstance(a, np.ndarray) and a.dtype != object:
+        return np.round(a, decimals)
+    if isinstance(a, (int, float)) and not isinstance(a, bool):
+        return round(a, decimals) if decimals else float(round(a))
+    if isinstance(a, Sym) and all(m == () for m in a.terms):
+        return Sym.const(round(float(a.terms.get((), 0)), decimals))
+    return _opaque("round", a)
 
 
 def _opaque(fname, a):
